@@ -596,6 +596,18 @@ func (eng *Engine) contractClosure(keys []string) []string {
 		for _, f := range eng.funcs[k] {
 			visitFn(f)
 		}
+		// the writers a rely condition of k names: its proof assumes what they guarantee
+		if fc := eng.specs.Funcs[k]; fc != nil {
+			for _, in := range fc.Interference {
+				for _, w := range in.Writers {
+					for wk := range eng.specs.Funcs {
+						if callMatches(w, wk) && !eng.specs.Funcs[wk].Trusted {
+							addKey(wk)
+						}
+					}
+				}
+			}
+		}
 	}
 	visitFn = func(f *ssa.Function) {
 		if f == nil || seenFn[f] || f.Blocks == nil {
